@@ -103,13 +103,14 @@ def resolve (st : HState K V) : HArg K V → Arg K V
   | .mapping m => .mapping m
   | .pairs l => .pairs l
 
+def resolveNew (st : HState K V) : HArg K V → Arg K V
+  | .self => .omd st.s
+  | E => resolve st E
+
 def withS (st : HState K V) (r : List (K × V) × Out K V) : HState K V × Out K V := (⟨r.1, st.t⟩, r.2)
 
 def hstep (st : HState K V) : HOp K V → HState K V × Out K V
-  | .new E F => (⟨new (match E with
-      | none => none
-      | some .self => some (.omd st.s)
-      | some E => some (resolve st E)) F, st.t⟩, .unit)
+  | .new E F => (⟨new (E.map (resolveNew st)) F, st.t⟩, .unit)
   | .add k v => (⟨st.s ++ [(k, v)], st.t⟩, .unit)
   | .addlist k vs => (⟨st.s ++ vs.map (fun v => (k, v)), st.t⟩, .unit)
   | .setitem k v => (⟨setitem st.s k v, st.t⟩, .unit)
